@@ -218,13 +218,12 @@ def Rat.strictlyBetween (lo x hi : Rat) : Bool := decide (lo < x) && decide (x <
     (feature dimension for linear methods, `min(D, N-1)` positive eigenvalues of a centred Euclidean Gram matrix,
     number of landmarks, neighbourhood size for the local tangent methods) -/
 def withinRank (c : Config) : Bool :=
-  let gramRank := min c.D (c.N - 1)
   match c.method with
   | .pca | .rp | .fa | .ms | .npe | .lpp | .lltsa => decide (c.d ≤ c.D)
-  | .mds | .kpca => decide (c.d ≤ gramRank)
-  | .isomap => decide (c.d ≤ 1)                       -- geodesic Gram matrix: only its trace is known positive
-  | .lmds => decide (c.d ≤ min c.D (nLandmarks c - 1))
-  | .lisomap => decide (c.d ≤ 1) && decide (c.d ≤ nLandmarks c - 1)
+  -- MDS, kernel PCA, Isomap clamp the retained eigenvalues at zero before the square root, the landmark methods use a
+  -- pseudo-inverse for vanishing eigenvalues: every validated target_dimension yields finite coordinates
+  | .mds | .kpca | .isomap => true
+  | .lmds | .lisomap => true
   | .kltsa => decide (c.d ≤ min c.k c.D)
   | .hlle => decide (hlle_yi_cols c.d (hlle_dp c.d) ≤ c.k) && decide (c.d ≤ c.D)
   | .klle | .le | .dm => decide (c.d + 2 ≤ c.N)
